@@ -296,10 +296,31 @@ def r27(F):
 
 
 def r68(F):
+    """the rule is run on the rewriter as written and, when that view does not let it decide (or shows a violation), on the
+    view with the rewriter's private helpers spliced in: both describe the same program, a proof on either stands"""
+    from ..core import AnchorError
+    try:
+        r = _r68(F, False)
+        if not r.violations and not r.errors:
+            return r
+    except AnchorError:
+        r = None
+    try:
+        r2 = _r68(F, True)
+    except AnchorError:
+        if r is None:
+            raise
+        return r
+    if r is None or (not r2.errors and len(r2.violations) <= len(r.violations)):
+        return r2
+    return r
+
+
+def _r68(F, flat):
     r = RuleResult("R68", "rewriter coverage and base directory",
                    "the rewriter handles Import and Include, joins relative paths onto its base, exempts only std/; the base is the "
                    "parent directory of the file being translated / checked; expressions parsed late (format strings) are rewritten too", floor=7)
-    fn = F.fn("<ucglib::ast::rewrite::Rewriter as ucglib::ast::walk::Visitor>::visit_expression")
+    fn = F.fn("<ucglib::ast::rewrite::Rewriter as ucglib::ast::walk::Visitor>::visit_expression", flat=flat)
     homes = {}
     for variant in ("Import", "Include"):
         arm = None
